@@ -245,7 +245,7 @@ fn distinct_whole_blocks(basis: &[u8], bs: usize) -> bool {
 }
 
 /// One (basis, src, bs) through every engine; emits the `sig` and `delta` model queries.
-pub fn run_pair(w: &mut Out, p: &Pair, rtm: &tokio::runtime::Runtime, cli: Option<&CliCtx>, to_model: bool) {
+pub fn run_pair(w: &mut Out, p: &Pair, rtm: &tokio::runtime::Runtime, cli: Option<&CliCtx>, to_model: bool, c16: bool) {
     let key = format!("{}", p.label);
     w.count(&format!("bs/{}", if legal(p.bs) { p.bs.to_string() } else { "non-legal".into() }));
     w.count(&format!("basis/{}", match p.basis.len() { 0 => "0", 1..=65536 => "<=64KiB", _ => ">64KiB" }));
@@ -304,9 +304,15 @@ pub fn run_pair(w: &mut Out, p: &Pair, rtm: &tokio::runtime::Runtime, cli: Optio
         Ok((true, o)) if o == p.src => {}
         _ => w.fail(l, "roundtrip-async", &format!("async patch(delta) != source [{key}]")),
     }
-    // C16 oracle
-    let tb = textbook_literals(&p.basis, &p.src, p.bs);
+    // C16 oracle (reported by `./check C16` only; C01 is about reconstruction, not size)
     let lit = d_sync.bytes_literal();
+    if !c16 {
+        if lit < p.src.len() as u64 { w.count("has-match"); }
+        if p.edit.is_some() { w.count("edits"); }
+        if let Some(c) = cli { if legal(p.bs) { c.chain(w, l, p, &d_sync, &sig); } }
+        return;
+    }
+    let tb = textbook_literals(&p.basis, &p.src, p.bs);
     if lit > tb {
         w.fail(l, "more-literals-than-textbook", &format!("delta carries {lit} literal bytes, textbook greedy {tb} [{key}]"));
     }
@@ -425,7 +431,7 @@ Model queries: `sig` and `delta` (exact op list, literal data compared by length
     }
     let mut rng = Rng::new(seed ^ 0xC01);
     for p in corpus() {
-        run_pair(w, &p, &rtm, cli.as_ref(), true);
+        run_pair(w, &p, &rtm, cli.as_ref(), true, prop == "C16");
         w.count("corpus");
     }
     let n = if thorough { 4000 } else { 260 };
@@ -433,7 +439,7 @@ Model queries: `sig` and `delta` (exact op list, literal data compared by length
     for i in 0..n {
         let p = gen_pair(&mut rng, i, thorough, max_work);
         let use_cli = i % (if thorough { 10 } else { 6 }) == 0;
-        run_pair(w, &p, &rtm, if use_cli { cli.as_ref() } else { None }, true);
+        run_pair(w, &p, &rtm, if use_cli { cli.as_ref() } else { None }, true, prop == "C16");
     }
     // large inputs (rayon path, multi-MiB): implementation vs oracle only, no model line
     let big = if thorough { 40 } else { 6 };
@@ -448,10 +454,9 @@ Model queries: `sig` and `delta` (exact op list, literal data compared by length
         let k = ins.len() as u64;
         src.splice(at..at, ins);
         let p = Pair { basis, src, bs, label: format!("big{i}/bs{bs}/blocks{nb}/class{class}"), edit: Some(k) };
-        run_pair(w, &p, &rtm, None, false);
+        run_pair(w, &p, &rtm, None, false, prop == "C16");
         w.count("big-oracle-only");
     }
-    let _ = prop;
 }
 
 // ------------------------------------------------------------------------------------------------
